@@ -37,6 +37,8 @@ pub enum Mut {
     /// add `count` fixed-value integer records to the first prototype
     XmlAddRecords { count: u16 },
     XmlDeepNest { depth: u16 },
+    /// remove everything between the start and end tag of the nth container element
+    XmlDeleteChildren { nth: u16 },
     XmlGarbage { at: u16, text: String },
     /// compressed vector section header: 0 id, 1 length, 2 data offset, 3 index offset
     Section { nth: u8, field: u8, value: u64 },
@@ -141,7 +143,13 @@ pub fn gen_script(s: &mut Src) -> Script {
             5 => Mut::XmlDuplicate { nth: s.below(80) as u16 },
             6 => Mut::XmlMinEqMax { nth: s.below(12) as u16, all: s.flag() },
             7 => Mut::XmlAddRecords { count: *s.pick(&[1u16, 100, 3000, 22000]) },
-            8 => Mut::XmlDeepNest { depth: *s.pick(&[10u16, 200, 5000]) },
+            8 => {
+                if s.flag() {
+                    Mut::XmlDeepNest { depth: *s.pick(&[10u16, 200, 5000]) }
+                } else {
+                    Mut::XmlDeleteChildren { nth: s.below(12) as u16 }
+                }
+            }
             9 => Mut::XmlGarbage { at: s.u16(), text: s.pick(&["<", "&", "]]>", "\u{0}", "<a>", "</e57Root>", "<!--"]).to_string() },
             10 => Mut::Section { nth: s.below(3) as u8, field: s.below(4) as u8, value: u64_pool(s, len_hint) },
             11 => Mut::Packet { cloud: s.below(3) as u8, nth: s.below(4) as u8, field: s.below(8) as u8, value: *s.pick(&[0u16, 1, 2, 3, 4, 5, 7, 8, 255, 256, 1019, 65535, 65531, 32768]) },
@@ -330,6 +338,42 @@ fn apply_mut(img: &mut Img, m: &Mut) {
                     add.push_str(&format!("<r{i} type=\"Integer\" minimum=\"7\" maximum=\"7\"/>\n"));
                 }
                 img.xml.insert_str(p, &add);
+                img.xml_dirty = true;
+            }
+        }
+        Mut::XmlDeleteChildren { nth } => {
+            // one pass with a stack: content ranges of Structure / Vector / CompressedVector elements
+            let xml = img.xml.clone();
+            let b = xml.as_bytes();
+            let mut stack: Vec<(bool, usize)> = Vec::new();
+            let mut found: Vec<(usize, usize)> = Vec::new();
+            let mut k = 0;
+            while k < b.len() && found.len() < 64 {
+                if b[k] != b'<' {
+                    k += 1;
+                    continue;
+                }
+                if xml[k..].starts_with("<![CDATA[") {
+                    k = xml[k..].find("]]>").map(|p| k + p + 3).unwrap_or(b.len());
+                    continue;
+                }
+                let Some(gt) = xml[k..].find('>').map(|q| k + q) else { break };
+                let tag = &xml[k..=gt];
+                if tag.starts_with("</") {
+                    if let Some((container, start)) = stack.pop() {
+                        if container && start <= k {
+                            found.push((start, k));
+                        }
+                    }
+                } else if !tag.starts_with("<?") && !tag.starts_with("<!") && !tag.ends_with("/>") {
+                    let container = tag.contains("\"Structure\"") || tag.contains("\"Vector\"") || tag.contains("\"CompressedVector\"");
+                    stack.push((container, gt + 1));
+                }
+                k = gt + 1;
+            }
+            if !found.is_empty() {
+                let (a, e) = found[*nth as usize % found.len()];
+                img.xml.replace_range(a..e, "");
                 img.xml_dirty = true;
             }
         }
